@@ -163,6 +163,25 @@ func (ex *Exec) callAbstract(fr *frame, fv Val, cc *ssa.CallCommon, args []Val, 
 		}
 		return Val{T: sig.Results()}
 	}
+	// a callback of unknown behaviour must not run while this function holds a lock it took itself: whatever the callback
+	// blocks on (a stalled resolver, an HTTP exchange), every other user of that mutex then blocks with it — the calls
+	// are serialised behind one another's timeouts (C08), and a callback that re-enters deadlocks (C14)
+	if fr != nil && reach != nil && ex.pure == 0 && !ex.discover {
+		seenLock := map[string]bool{}
+		var gs []string
+		for _, p := range ex.lockSites {
+			key := fmt.Sprint(p.L, ptrInfoOf(p).Kind, typeKey(ptrInfoOf(p).Root), ptrInfoOf(p).Path)
+			if seenLock[key] {
+				continue
+			}
+			seenLock[key] = true
+			gs = append(gs, not(ex.load(st, p).L[0]))
+		}
+		if len(gs) > 0 {
+			pos := ex.posOf(cc.Pos())
+			ex.oblige(fr.label("callback.nolock."+sanitize(name)), "assert", []string{"C08", "C14"}, imp(*reach, and(gs...)), pos, "function value "+name+" is called while a mutex locked by this function is held")
+		}
+	}
 	// ghost call counter
 	ck := "X|calls." + name
 	ex.registerKey(ck, sInt)
